@@ -87,7 +87,12 @@ inline MMessage * BuildMM(const MMsg & mod)
    for (size_t i=0; i<mod.f.size(); i++)
    {
       const MField & f = mod.f[i]; if (f.flattenable == false) continue;
-      const char * fn = f.name.c_str(); const uint32 n = (uint32) f.items.size(); bool ok = true;
+      const char * realName = f.name.c_str(); const uint32 n = (uint32) f.items.size(); bool ok = true;
+      // a third of the fields are put under a longer working name and renamed to their real (shorter) name, a third under a shorter one and renamed to the longer: the way an
+      // application fills in a Message from a template.  (The field is the last one at that moment, so the order of the fields is the model's either way.)
+      std::string tmpName; const uint32 how = (uint32)((i+n+f.name.size())%3);
+      if (how == 0) tmpName = "~working~name~"+std::to_string(i)+"~"+std::string(f.name.size(), 'x'); else if ((how == 1)&&(f.name.size() >= 3)) tmpName = "~"+std::to_string(i%10);
+      const char * fn = tmpName.size() ? tmpName.c_str() : realName;
       std::string all; for (uint32 k=0; k<n; k++) all += f.items[k];
       switch(f.tc)
       {
@@ -104,6 +109,7 @@ inline MMessage * BuildMM(const MMsg & mod)
          case B_MESSAGE_TYPE: {MMessage ** a = MMPutMessageField(mm, MFalse, fn, n); if (a) for (uint32 k=0; k<n; k++) {a[k] = BuildMM(*f.subs[k]); if (a[k] == NULL) ok = false;} else ok = false;} break;
          default: {MByteBuffer ** a = MMPutDataField(mm, MFalse, f.tc, fn, n); if (a) for (uint32 k=0; k<n; k++) {a[k] = MBAllocByteBuffer((uint32)f.items[k].size(), MFalse); if (a[k]) memcpy(&a[k]->bytes, f.items[k].data(), f.items[k].size()); else ok = false;} else ok = false;} break;
       }
+      if ((ok)&&(tmpName.size())) {if (MMRenameField(mm, fn, realName) != CB_NO_ERROR) vf::Fail("MMRenameField(%s -> %s) failed", fn, realName); vf::Count((how == 0) ? "mini_field_renamed_to_a_shorter_name" : "mini_field_renamed_to_a_longer_name");}
       if (ok == false) {MMFreeMessage(mm); return NULL;}
    }
    return mm;
